@@ -728,6 +728,59 @@ def _prepare(ctx):
     return opts, cmds
 
 
+def job_sequence_tie(ctx, opts, cmds):
+    """The stub job of the bulk streams gets its settings from the harness.  Here the jobs are the real ones, built as
+    the server builds them (webhook.py: PullRequestJob(bert_e=..., pull_request=...), no settings argument), SEVERAL in
+    one process: an entitled comment on one pull request, then the evaluation of another pull request on which nobody
+    wrote anything - every option of that second job must have its default value (what a fresh process gives)."""
+    S = _impl()
+    from bert_e.job import PullRequestJob
+    set_cmdline(())
+    reg = S['Reactor'].get_options()
+    bert_e = SimpleNamespace(settings=S['SettingsDict']({}, {'robot': ROBOT, 'admins': list(ADMINS),
+                                                             'pr_author_options': {}}),
+                             client=SimpleNamespace(login=ROBOT), project_repo=None, git_repo=None)
+
+    def evaluate(pr_id, author, comments):
+        pr = SimpleNamespace(id=pr_id, author=author,
+                             comments=[SimpleNamespace(author=a, text=t) for a, t in comments])
+        job = PullRequestJob(bert_e=bert_e, pull_request=pr)          # as bert_e/server/webhook.py does
+        try:
+            S['gwf'].handle_comments(job)
+        except S['StubReset']:
+            pass
+        except S['ex'].TemplateException:
+            pass
+        import copy as _copy
+        return {k: _copy.deepcopy(job.settings.maps[0].get(k)) for k in reg}, sorted(job.active_options)
+
+    fresh, fresh_active = evaluate(1, 'dev0', [])
+    for k, opt in reg.items():
+        if fresh[k] != opt.default:
+            ctx.violation({'jobs': [{'pr': 1, 'comments': []}], 'option': k}, repr(opt.default), repr(fresh[k]),
+                          'an option of a job without comments does not have its default value',
+                          key=core.canon({'what': 'job sequence: first job', 'option': k}))
+    words = [w + a for w in opts for a in ('', '=3', '=True')] + cmds
+    n = 0
+    for w in words:
+        for who in (ADMINS[0], 'dev1'):
+            first = [(who, '@%s %s' % (ROBOT, w))]
+            evaluate(2, 'dev1', first)
+            got, active = evaluate(3, 'dev2', [])
+            n += 2
+            ctx.count('job_sequence_pairs')
+            if got != fresh or active != fresh_active:
+                diff = {k: (repr(fresh[k]), repr(got[k])) for k in got if got[k] != fresh[k]}
+                ctx.violation({'jobs': [{'pr': 2, 'author': 'dev1', 'comments': first},
+                                        {'pr': 3, 'author': 'dev2', 'comments': []}], 'admins': ADMINS},
+                              {'options of the second job': 'defaults', 'active': fresh_active},
+                              {'differ (default, got)': diff, 'active': active},
+                              'an option written on one pull request is in effect on another pull request on which '
+                              'nobody wrote it (jobs built as the webhook builds them, same process)',
+                              key=core.canon({'what': 'job sequence: option carried over', 'options': sorted(diff)}))
+    ctx.evaluations += n
+
+
 def run(ctx):
     if ctx.model is None:
         ctx.notes.append('extracted model unavailable: correspondence and monitor not run')
@@ -737,6 +790,7 @@ def run(ctx):
     identity.check(ctx, 'handle_comments: comment author in admins, == pull request author')
     authoropts.check(ctx)            # "... or is granted by per-author settings": several authors in one settings file
     opts, cmds = _prepare(ctx)
+    job_sequence_tie(ctx, opts, cmds)
     words = opts + cmds + UNKNOWN
     escalate = bool(ctx.extra.get('regex_literals_changed'))
     if escalate:
